@@ -794,6 +794,11 @@ def _load_paths(ctx, mod, t: Optional[str], w: Optional[int], **kw) -> List[Path
     assume = dict(kw.pop("assume", None) or {})
     assume.setdefault(("op", "is", N("$parsed"), C(None)), False)   # a field was read (end of input is the other branch)
     assume.setdefault(("op", "is", META, C(None)), False)           # the metadata of a known field exists
+    # a scenario that says whether the field currently holds a list says the same about its declaration: a field holds a
+    # list exactly when it is declared repeated (default_gen[field] is list), and load may ask either question
+    cur_list_atom = ("call", N("isinstance"), (N("$current"), N("list")), ())
+    if cur_list_atom in assume:
+        assume.setdefault(("op", "is", ("sub", A(A(N("self"), "_betterproto"), "default_gen"), FIELD_NAME), N("list")), assume[cur_list_atom])
     kw.setdefault("fork_ifexp", True)
     i = Interp(mod, bindings=b, aliases=al, alias_fn=load_alias_fn, loop_roles=load_roles, assume=assume, **kw)
     paths = i.run(load)
